@@ -2,4 +2,5 @@ import EdzedProps.C01
 import EdzedProps.C09
 import EdzedProps.C14
 import EdzedProps.C16
+import EdzedProps.C17
 import EdzedProps.C20
